@@ -30,6 +30,42 @@ theorem doSleep_inv (s : TS) (d : Nat) (h : Inv s) : Inv (doSleep s d).2 := by
   repeat' split
   all_goals simp_all [wakeUp, timerFire, cancelFire]
 
+/-- whatever every suspension preserves, a sweep preserves -/
+theorem sweep_preserves (Q : TS → Prop) (h : ∀ s d, Q s → Q (doSleep s d).2)
+    (R : List (Nat × Nat)) (r : Res) (s : TS) (hs : Q s) : Q (sweep R r s).2.1 := by
+  unfold sweep
+  split
+  · exact hs
+  · have := h s (maxNat (R.map (·.2))) hs
+    split <;> rename_i heq <;> rw [heq] at this <;> exact this
+
+/-- ... and so does leaving a task group (at most two suspensions: the join, the sweep) -/
+theorem gexit_preserves (Q : TS → Prop) (h : ∀ s d, Q s → Q (doSleep s d).2) (anyp : Bool)
+    (T : Int) (ms : List (Nat × Nat)) (r : Res) (s : TS) (hs : Q s) :
+    Q (gexit anyp T ms r s).2.1 := by
+  unfold gexit
+  split
+  · exact sweep_preserves Q h _ _ _ hs
+  · split
+    · exact hs
+    · split
+      · exact sweep_preserves Q h _ _ _ hs
+      · have := h s (T + (if anyp then minNat (ms.map (·.1)) else maxNat (ms.map (·.1))) - s.now).toNat hs
+        split <;> rename_i heq <;> rw [heq] at this
+        · split
+          · exact sweep_preserves Q h _ _ _ this
+          · exact this
+        · exact sweep_preserves Q h _ _ _ this
+
+theorem gexit_deadlines (anyp : Bool) (T : Int) (ms : List (Nat × Nat)) (r : Res) (s : TS) :
+    (gexit anyp T ms r s).2.1.deadlines = s.deadlines :=
+  gexit_preserves (fun s' => s'.deadlines = s.deadlines)
+    (fun s' d h => by rw [doSleep_deadlines]; exact h) anyp T ms r s rfl
+
+theorem gexit_inv (anyp : Bool) (T : Int) (ms : List (Nat × Nat)) (r : Res) (s : TS) (h : Inv s) :
+    Inv (gexit anyp T ms r s).2.1 :=
+  gexit_preserves Inv doSleep_inv anyp T ms r s h
+
 theorem enter_inv (s : TS) (d : Int) (h : Inv s) : Inv (enter s d) := by
   unfold enter Inv at *
   simp only [minL_append_single]
@@ -57,8 +93,9 @@ theorem aexit_inv (fixed ig : Bool) (self : Int) (r : Res) (s : TS) :
   repeat' split
   all_goals (right; rfl)
 
-/-- C11 `stack_discipline`: every program, on every exit path (normal, exception, timeout,
-    external cancellation), restores the deadline stack and leaves the timer consistent. -/
+/-- C11 `stack_discipline`: every program (task groups included), on every exit path (normal,
+    exception, timeout, external cancellation, a group clean-up that is itself interrupted),
+    restores the deadline stack and leaves the timer consistent. -/
 theorem stack_discipline (fixed : Bool) (p : Prog) : ∀ (s : TS), Inv s →
     (run fixed p s).2.1.deadlines = s.deadlines ∧ Inv (run fixed p s).2.1 := by
   induction p with
@@ -91,6 +128,11 @@ theorem stack_discipline (fixed : Bool) (p : Prog) : ∀ (s : TS), Inv s →
     refine ⟨?_, aexit_inv _ _ _ _ _⟩
     rw [aexit_deadlines, hb.1]
     simp [enter]
+  | group anyp ms body ih =>
+    intro s h
+    simp only [run]
+    have hb := ih s h
+    exact ⟨by rw [gexit_deadlines, hb.1], gexit_inv _ _ _ _ _ hb.2⟩
 
 /-- corollary: from a task with no active timeout nothing is left armed, whatever happened -/
 theorem nothing_left_armed (fixed : Bool) (p : Prog) (now : Int) (c : Option Int) :
